@@ -795,6 +795,10 @@ def run(ctx):
         ob.require(excl or validated, 'an existing file can be overwritten: export_to_file does not create exclusively and --file is '
                    'not validated by file_', etf.where)
     check_sinks(ctx, 'C20.SINKS')
+    # "JSON identical to what the library API returns for the same source secret, network ...": the network of a wallet made
+    # from an extended key is the key's own (the API's from_extended_key(key)), that of the other commands is --testnet
+    from .C16 import check_cli_network
+    check_cli_network(ctx, 'C20.NETWORK(=C16.CLI)')
     # "bad arguments yield no wallet output": the entropy_hex validator counts characters, the refusal of a wrong entropy
     # *size* (e.g. hex digits separated by blanks, which bytes.fromhex skips) is the library's - C04.SIZE is part of it
     from . import C04
